@@ -454,20 +454,22 @@ pub fn gen_ref_case(
 ) -> FwCase {
     let det = g.chance(0.4);
     let fam = if det { Family::Det } else { Family::Dyadic };
+    let deep = crate::props_fw::deep();
     let mut mc = MachCfg::new(fam);
-    mc.max_states = 1 + g.usize(4);
+    mc.max_states = 1 + g.usize(if deep { 8 } else { 4 });
     mc.p_trans = *g.pick(&[0.2, 0.35, 0.6, 0.9]);
     mc.p_counter = *g.pick(&[0.0, 0.3, 0.6]);
     mc.p_limit = *g.pick(&[0.0, 0.4, 0.8]);
     mc.p_signal = *g.pick(&[0.0, 0.05, 0.2]);
-    let calls = *g.pick(&[6, 20, 60, rc.max_calls]);
+    let max_calls = if deep { rc.max_calls.max(600) } else { rc.max_calls };
+    let calls = *g.pick(&[6, 20, 60, max_calls]);
     let mut hc = if g.chance(0.2) {
-        HistCfg::fault_free(calls.min(rc.max_calls))
+        HistCfg::fault_free(calls.min(max_calls))
     } else {
-        HistCfg::swarm(g, calls.min(rc.max_calls))
+        HistCfg::swarm(g, calls.min(max_calls))
     };
     tweak(g, &mut mc, &mut hc);
-    let nm = 1 + g.usize(rc.max_machines);
+    let nm = 1 + g.usize(rc.max_machines + if deep { 2 } else { 0 });
     let machines: Vec<Machine> = (0..nm).map(|_| mach::gen_machine(g, &mc)).collect();
     let fr = [0.0, 0.0, 0.25, 0.5, 1.0];
     let pf = *g.pick(&fr);
